@@ -374,6 +374,27 @@ def reset_coverage(prog, res):
     wp = {p[0] for p in reset.written_paths(cl, "ZSTD_CCtx_s")}
     res.check({"localDict", "prefixDict", "cdict"} <= wp, "T13.param-reset", "ZSTD_clearAllDicts", cl.loc,
               "clears localDict, prefixDict and cdict", "ZSTD_clearAllDicts no longer clears %s" % sorted({"localDict", "prefixDict", "cdict"} - wp))
+    # ... on EVERY path: an early return ("nothing referenced, nothing owned") leaves a dictionary that was loaded but not yet
+    # digested (localDict.dict with cdict still NULL) in force after a parameter reset
+    def clears(fn, fld):
+        return fn.find_roots(lambda x: (x.get("k") == "asg" and strip_casts(x["lhs"]).get("k") == "mem" and fld in {y.get("f") for y in walk(x["lhs"]) if y.get("k") == "mem"}) or
+                             (is_call(x, ("memset", "__builtin_memset", "ZSTD_memset")) and x.get("a") and any(y.get("k") == "mem" and y.get("f") == fld for y in walk(x["a"][0]))))
+    def known_empty(fn, fld):
+        """edges on which (a member of) the field was just tested to be NULL / zero: nothing to clear there"""
+        has = lambda a: any(y.get("k") == "mem" and y.get("f") == fld for y in fn.walk_resolved(a))
+        return guards.rel_edges(fn, has, "==", lambda b_: const_val(strip_casts(b_)) == 0, truth=True) + \
+            guards.truthy_edges(fn, lambda c: c.get("k") == "mem" and any(y.get("f") == fld for y in walk(c) if y.get("k") == "mem"), truth=False)
+    for fld in ("localDict", "prefixDict", "cdict"):
+        wr = clears(cl, fld)
+        res.check(bool(wr) and cl.must_pass(via_roots=wr, via_edges=known_empty(cl, fld)), "T13.param-reset", "ZSTD_clearAllDicts:%s-on-every-path" % fld, cl.loc,
+                  "every path through ZSTD_clearAllDicts clears %s" % fld,
+                  "ZSTD_clearAllDicts has a path that returns without clearing %s: a dictionary given with ZSTD_CCtx_loadDictionary and not yet used survives "
+                  "ZSTD_CCtx_reset(ZSTD_reset_parameters) / loadDictionary(NULL) and is applied to the next frame" % fld)
+    dcl = prog.fn("ZSTD_clearDict")
+    for fld in ("ddictLocal", "ddict", "dictUses"):
+        wr = clears(dcl, fld)
+        res.check(bool(wr) and dcl.must_pass(via_roots=wr, via_edges=known_empty(dcl, fld)), "T13.param-reset", "ZSTD_clearDict:%s-on-every-path" % fld, dcl.loc,
+                  "every path through ZSTD_clearDict clears %s" % fld, "ZSTD_clearDict has a path that returns without clearing %s" % fld)
     st = prog.fn("ZSTD_DCtx_setParameter")
     rp = prog.fn("ZSTD_DCtx_resetParameters")
     written = {p for p in reset.written_paths(st, "ZSTD_DCtx_s")}
